@@ -170,6 +170,13 @@ def run_sem_check(pid, tier, families, rule, assumptions, extra_cases=None, want
         total_cf += ncf
         total_prog += len(cases)
         ev.traces += nv
+        if want_eval:
+            for res in results:
+                if "r" in res and res["r"].get("compile") == "ok":
+                    for call in res["r"]["calls"]:
+                        k = (call.get("eval") or {}).get("k", "none")
+                        key = "evaluator_completed_with_value" if k == "value" else "evaluator_panicked"
+                        ev.extra[key] = ev.extra.get(key, 0) + 1
         for k, v in kinds.items():
             allkinds[k] = allkinds.get(k, 0) + v
         for c, res in zip(cases, results):
